@@ -215,7 +215,18 @@ let () =
                                      | ISA.FStack -> "stack" | ISA.FBranch -> "branch" | ISA.FUnsupported -> "unsupported"))))
             with Missing_decode k -> Printf.fprintf oc "r model-missing-decode %s\n" k)
           | _ -> output_string oc "r fault fetch\n"))
-    | "render" :: _ -> (match !m with Some _ -> output_string oc "r render ok ok ok\n" | None -> output_string oc "r nomachine\n")
+    | "render" :: _ ->
+      (match !m with
+       | Some mm ->
+         let show (r : BinNums.coq_Z list Outcome.outcome) =
+           match r with
+           | Outcome.Ok l -> "ok:" ^ String.concat "," (Stdlib.List.map (fun x -> string_of_int (int_of_z x)) l)
+           | _ -> "panic" in
+         let st = mm.Machine.st in
+         Printf.fprintf oc "r render %s %s ok\n"
+           (show (TraceRender.render_trace_indents st.State.trace))
+           (show (TraceRender.render_stack_indents (z_of_int 0) st.State.call_stack))
+       | None -> output_string oc "r nomachine\n")
     | opn :: args ->
       let mk : (Machine.op * shown) option =
         match opn, args with
